@@ -432,7 +432,13 @@ pub fn rand_key(rng: &mut Rng, homogeneous: u64) -> SData {
         4 => SData::Char(*rng.pick(&['a', '0', '1', 'é'])),
         5 => SData::I32(rng.next() as i32),
         6 => SData::UnitVariant(name(rng), 0, name(rng)),
-        7 => SData::U8(rng.next() as u8),
+        7 => match rng.below(5) {
+            0 => SData::U8(rng.next() as u8),
+            1 => SData::U16(rng.next() as u16),
+            2 => SData::U32(rng.next() as u32),
+            3 => SData::I8(rng.next() as i8),
+            _ => SData::I16(rng.next() as i16),
+        },
         8 => SData::Some(Box::new(rand_key(rng, 99))),
         9 => SData::NewtypeStruct(name(rng), Box::new(rand_key(rng, 99))),
         10 => SData::F64(rand_f64(rng)),
